@@ -4,7 +4,7 @@
 use crate::refopt::{self, norm2};
 use crate::Out;
 use linfa::traits::{Fit, Predict, PredictInplace};
-use crate::layout::{expand, lay};
+use crate::layout::{expand, lay, lay_targets};
 use linfa::DatasetBase;
 use linfa_logistic::LogisticRegression;
 use lvmc_core::{guarded, Violation};
@@ -51,13 +51,40 @@ pub struct BinCase {
     pub decoys: bool,
     #[serde(default = "crate::default_ctor")]
     pub ctor: String,
+    /// setters that are NOT called at all: the case then carries the documented default of that parameter
+    /// (alpha 1, intercept on, max_iterations 100, gradient_tolerance 1e-4, no initial parameters)
+    #[serde(default)]
+    pub skip_setters: Vec<u8>,
+    /// layout of the 1-D target array handed to fit (standard | reversed_view | stepped_view | owned_inverted)
+    #[serde(default = "crate::std_layout")]
+    pub target_layout: String,
+    /// label naming: the dataset is built with the group indices as targets and renamed through
+    /// `DatasetBase::map_targets` (as in the crate's documentation) instead of being built with the names
+    #[serde(default)]
+    pub naming_via_map_targets: bool,
 }
 
 pub const OWN_SCORE_BOUND: f64 = 15.0;
 
 pub fn run(case: &BinCase, viols: &mut Vec<Violation>) -> Out {
+    // parameters whose setter is never called carry the documented default
+    let mut normalised = case.clone();
+    for &s in &case.skip_setters {
+        match s {
+            0 => normalised.alpha = 1.0,
+            1 => normalised.intercept = true,
+            2 => {
+                normalised.max_iter = 100;
+                normalised.retry_max_iter = 0;
+            }
+            3 => normalised.gtol = 1e-4,
+            _ => normalised.init = None,
+        }
+    }
+    let case = &normalised;
     let builder_variant = case.setter_order.is_some() || case.decoys || case.ctor != "default";
-    if case.fit_layout == "standard" && case.query_layout == "standard" && !builder_variant {
+    let target_variant = case.target_layout != "standard" || case.naming_via_map_targets;
+    if case.fit_layout == "standard" && case.query_layout == "standard" && !builder_variant && !target_variant {
         return run_inner(case, viols);
     }
     // variant case (other layout / other builder history): the canonical run of the same case is the baseline; what
@@ -68,6 +95,8 @@ pub fn run(case: &BinCase, viols: &mut Vec<Violation>) -> Out {
     base.setter_order = None;
     base.decoys = false;
     base.ctor = "default".into();
+    base.target_layout = "standard".into();
+    base.naming_via_map_targets = false;
     let mut bv = Vec::new();
     let bo = run_inner(&base, &mut bv);
     if !bv.is_empty() || bo.ood {
@@ -84,6 +113,15 @@ pub fn run(case: &BinCase, viols: &mut Vec<Violation>) -> Out {
         }
         for v in lv {
             viols.push(Violation::new(sig, format!("the canonical builder order passes every check; setters in order {:?} (decoys first: {}, constructor {}): [{}] {}", case.setter_order, case.decoys, case.ctor, v.sig, v.what), cj.clone()));
+        }
+    } else if target_variant {
+        let sig = if case.naming_via_map_targets { "logistic.fit.map_targets_dependence" } else { "logistic.fit.target_layout_dependence" };
+        let cj = serde_json::to_value(crate::Case::Binary(case.clone())).unwrap();
+        if lv.is_empty() && o.fingerprint != bo.fingerprint {
+            viols.push(Violation::new(sig, format!("same samples and labels, targets handed over as '{}' (named through map_targets: {}): fitted parameters / probabilities are not bit-identical to those of the dataset built directly with a standard-layout label array", case.target_layout, case.naming_via_map_targets), cj.clone()));
+        }
+        for v in lv {
+            viols.push(Violation::new(sig, format!("the dataset built directly with a standard-layout label array passes every check; targets handed over as '{}' (named through map_targets: {}): [{}] {}", case.target_layout, case.naming_via_map_targets, v.sig, v.what), cj.clone()));
         }
     } else {
         for v in lv {
@@ -159,8 +197,13 @@ fn $name<C: Ord + Clone + Default + std::fmt::Debug + 'static>(case: &BinCase, c
     // ---- fit with the real code ----
     let rows: Vec<Vec<$F>> = xs.iter().map(|r| r.iter().map(|&v| v as $F).collect()).collect();
     let laid = lay(&rows, &case.fit_layout, <$F>::NAN);
-    let y: Array1<C> = Array1::from_iter(groups.iter().map(|&g| cls[g as usize].clone()));
-    let ds = DatasetBase::new(laid.view(), y);
+    let named: Vec<C> = groups.iter().map(|&g| cls[g as usize].clone()).collect();
+    let gidx: Vec<usize> = groups.iter().map(|&g| g as usize).collect();
+    let ncls = cls.len();
+    // targets in the requested layout; filler entries of the stepped view hold a DIFFERENT class
+    let t_named = lay_targets(&named, &case.target_layout, &|i| cls[(groups[i] as usize + 1) % ncls].clone());
+    let t_idx = lay_targets(&gidx, &case.target_layout, &|i| (groups[i] as usize + 1) % ncls);
+    let lookup = cls.clone();
     let build = |order: &[u8], decoys: bool, ctor: &str| {
         let mut p = if ctor == "new" { LogisticRegression::<$F>::new() } else { LogisticRegression::<$F>::default() };
         let np = d + case.intercept as usize;
@@ -170,6 +213,9 @@ fn $name<C: Ord + Clone + Default + std::fmt::Debug + 'static>(case: &BinCase, c
             }
             let decoy = pass == 0;
             for &s in order {
+                if case.skip_setters.contains(&s) {
+                    continue;
+                }
                 p = match s {
                     0 => p.alpha(if decoy { 7.5 } else { case.alpha as $F }),
                     1 => p.with_intercept(if decoy { !case.intercept } else { case.intercept }),
@@ -197,7 +243,18 @@ fn $name<C: Ord + Clone + Default + std::fmt::Debug + 'static>(case: &BinCase, c
             ));
         }
     }
-    let mut model = match guarded(|| params.fit(&ds)) {
+    let do_fit = |p: &LogisticRegression<$F>| {
+        guarded(|| {
+            let rec = laid.view();
+            match (t_named.is_owned_kind(), case.naming_via_map_targets) {
+                (false, false) => p.fit(&DatasetBase::new(rec, t_named.view())),
+                (true, false) => p.fit(&DatasetBase::new(rec, t_named.owned())),
+                (false, true) => p.fit(&DatasetBase::new(rec, t_idx.view()).map_targets(|g| lookup[*g].clone())),
+                (true, true) => p.fit(&DatasetBase::new(rec, t_idx.owned()).map_targets(|g| lookup[*g].clone())),
+            }
+        })
+    };
+    let mut model = match do_fit(&params) {
         Ok(Ok(m)) => m,
         Ok(Err(e)) => {
             let msg = format!("{}", e);
@@ -228,7 +285,7 @@ fn $name<C: Ord + Clone + Default + std::fmt::Debug + 'static>(case: &BinCase, c
                     let own0 = refopt::lm_newton(&fgh0, &vec![0.0; theta.len()], 1e-10 * xmax, 200);
                     if own0.converged && e.f - own0.f > gap_rel * own0.f.abs().max(1.0) {
                         out.tag("binary_refits_with_retry_max_iter");
-                        match guarded(|| params.clone().max_iterations(case.retry_max_iter).fit(&ds)) {
+                        match do_fit(&params.clone().max_iterations(case.retry_max_iter)) {
                             Ok(Ok(m2)) => model = m2,
                             Ok(Err(e)) => {
                                 viols.push(Violation::new("logistic.fit.unexpected_error", format!("refit with max_iterations {} returned Err({})", case.retry_max_iter, e), cj()));
@@ -429,6 +486,44 @@ fn $name<C: Ord + Clone + Default + std::fmt::Debug + 'static>(case: &BinCase, c
                                 cj(),
                             ));
                         }
+                    }
+                }
+            }
+        }
+        // ---- every calling form of predict (array ref, owned array, owned dataset, dataset ref, dataset of a view)
+        //      and a one-row batch must agree with predict(&array) ----
+        if is_default_thr {
+            let nq = queries.len();
+            let q_owned = q.to_owned();
+            let r = guarded(|| {
+                let a: DatasetBase<ndarray::Array2<$F>, Array1<C>> = m.predict(q_owned.clone());
+                let b: DatasetBase<ndarray::Array2<$F>, Array1<C>> = m.predict(DatasetBase::new(q_owned.clone(), Array1::<u8>::zeros(nq)));
+                let dsq = DatasetBase::new(q_owned.clone(), Array1::<u8>::zeros(nq));
+                let c: Array1<C> = m.predict(&dsq);
+                let dsv = DatasetBase::new(q.clone(), Array1::<u8>::zeros(nq));
+                let d2: Array1<C> = m.predict(&dsv);
+                let one = q.slice(ndarray::s![0..1, ..]);
+                let e: Array1<C> = m.predict(&one);
+                let e2: DatasetBase<ndarray::Array2<$F>, Array1<C>> = m.predict(one.to_owned());
+                let pp = m.predict_probabilities(&one);
+                (vec![("owned array", a.targets), ("owned dataset", b.targets), ("&dataset", c), ("&dataset of a view", d2)], e, e2.targets, pp)
+            });
+            match r {
+                Err(p) => viols.push(Violation::new("logistic.predict.calling_form_panic", format!("a calling form of predict panicked: {}", p), cj())),
+                Ok((forms, e, e2, pp)) => {
+                    out.tag("predict_calling_form_checks");
+                    for (name, got) in &forms {
+                        if got != &pred {
+                            viols.push(Violation::new("logistic.predict.calling_form_dependence", format!("predict({}) = {:?}, predict(&array) = {:?}", name, got, pred), cj()));
+                            break;
+                        }
+                    }
+                    if e.len() != 1 || e2.len() != 1 || pp.len() != 1 || e[0] != pred[0] || e2[0] != pred[0] || ((pp[0] as f64) - (probs[0] as f64)).abs() > ptol {
+                        viols.push(Violation::new(
+                            "logistic.predict.one_row_batch_differs",
+                            format!("one-row batch: predict(&row) = {:?}, predict(owned row) = {:?}, probability {:?}; the same row inside the full batch: {:?}, {}", e, e2, pp, pred[0], probs[0]),
+                            cj(),
+                        ));
                     }
                 }
             }
